@@ -20,6 +20,7 @@ import (
 
 	"github.com/inspirer/textmapper/grammar"
 	"github.com/inspirer/textmapper/lex"
+	"github.com/inspirer/textmapper/status"
 )
 
 // lexFirstWords keeps the first n words of a message (distribution keys).
@@ -62,6 +63,9 @@ type lexGram struct {
 	Opts   lexOpts
 	Decls  []string // %s / %x lines
 	NState int
+	// start conditions in declaration order (initial first) and whether each is inclusive (%s)
+	SCNames   []string
+	Inclusive []bool
 	// number of pattern-less token declarations in front of the rules
 	Predeclared int
 	Rules       []lexRule
@@ -148,19 +152,23 @@ func genLexGram(r *rand.Rand, name string, hashBuggy bool) *lexGram {
 
 	// start conditions
 	scs := []string{""}
+	g.SCNames, g.Inclusive = []string{"initial"}, []bool{true}
 	switch r.Intn(4) {
 	case 0:
 		g.Decls = append(g.Decls, "%s initial, sa;")
+		g.SCNames, g.Inclusive = []string{"initial", "sa"}, []bool{true, true}
 		g.NState = 2
 		scs = []string{"", "<sa> ", "<initial> ", "<initial, sa> ", "<*> "}
 		tag("inclusive-sc")
 	case 1:
 		g.Decls = append(g.Decls, "%x xb;")
+		g.SCNames, g.Inclusive = []string{"initial", "xb"}, []bool{true, false}
 		g.NState = 2
 		scs = []string{"", "<xb> ", "<initial, xb> ", "<*> ", "<xb> "}
 		tag("exclusive-sc")
 		if r.Intn(2) == 0 {
 			g.Decls = append(g.Decls, "%s sc;")
+			g.SCNames, g.Inclusive = []string{"initial", "xb", "sc"}, []bool{true, false, true}
 			g.NState = 3
 			scs = append(scs, "<sc> ", "<xb, sc> ")
 		}
@@ -230,7 +238,38 @@ func genLexGram(r *rand.Rand, name string, hashBuggy bool) *lexGram {
 		tag("negated-class")
 	}
 	idSC := sc()
+	// several rules for the token `id` across start conditions: the (class) rule with its keywords in
+	// <initial>, a second rule for the SAME token (plain / with code / another class rule) in another
+	// start condition, where the keywords are not reserved
+	otherID := ""
+	otherKind := 0
+	otherFirst := false
+	if g.NState > 1 && r.Intn(2) == 0 {
+		idSC = "<initial> "
+		otherID = "<" + g.SCNames[1+r.Intn(g.NState-1)] + "> "
+		otherKind = r.Intn(4)
+		otherFirst = r.Intn(4) == 0
+		tag("token-rules-across-start-conditions")
+	}
+	addOther := func() {
+		pat := []string{`[a-z_][a-z_0-9\-]*`, `[a-z]+`, idPat}[r.Intn(3)]
+		switch otherKind {
+		case 0, 1:
+			add(lexRule{sc: otherID, name: "id", pat: pat, frags: []string{"if", "else", "a-b", "x_1"}})
+		case 2:
+			add(lexRule{sc: otherID, name: "id", pat: pat, code: "{ $$ = 2 }", frags: []string{"if", "in", "a-b"}})
+		default:
+			add(lexRule{sc: otherID, name: "id", pat: pat, attr: "(class)", frags: []string{"if", "only", "a-b"}})
+			add(lexRule{sc: otherID, name: "'only'", pat: "only", frags: []string{"only", "only1"}})
+		}
+	}
+	if otherID != "" && otherFirst {
+		addOther()
+	}
 	nKw := []int{0, 1, 2, 3, 5, 9, 12, 20}[r.Intn(8)]
+	if otherID != "" && nKw == 0 {
+		nKw = 3
+	}
 	var kws []string
 	seen := map[string]bool{}
 	for len(kws) < nKw {
@@ -268,6 +307,9 @@ func genLexGram(r *rand.Rand, name string, hashBuggy bool) *lexGram {
 	}
 	if len(kws) > 8 {
 		tag("keywords>8")
+	}
+	if otherID != "" && !otherFirst {
+		addOther()
 	}
 
 	// numbers
@@ -771,4 +813,135 @@ func lexTokenID(gp *GenParser, name string) int {
 		}
 	}
 	return -1
+}
+
+// ---- rule-level reference (independent of compiler/lexer.go) ----
+
+type lexNode struct{ line int }
+
+func (n lexNode) SourceRange() status.SourceRange {
+	return status.SourceRange{Filename: "ref", Line: n.line + 1, Column: 1}
+}
+
+type lexNoResolver struct{}
+
+func (lexNoResolver) Resolve(name string) *lex.Pattern { return nil }
+
+// lexRef is the documented meaning of a lexGram, built WITHOUT the grammar compiler: every lexeme is
+// one lex.Rule (its own action), active in the start conditions its prefix names (no prefix: all
+// inclusive ones), with its priority; a (class) rule only loses ties against other rules (its
+// keywords). lex.Compile + lex.Tables.Scan turn the rules into a tokenizer (that part is C09).
+type lexRef struct {
+	t     *lex.Tables
+	names []string
+	space []bool
+	g     *lexGram
+}
+
+func (g *lexGram) scIndexes(prefix string) []int {
+	p := strings.TrimSpace(prefix)
+	var ret []int
+	if p == "" {
+		for i, inc := range g.Inclusive {
+			if inc {
+				ret = append(ret, i)
+			}
+		}
+		return ret
+	}
+	p = strings.Trim(p, "<>")
+	if p == "*" {
+		for i := range g.SCNames {
+			ret = append(ret, i)
+		}
+		return ret
+	}
+	for _, n := range strings.Split(p, ",") {
+		n = strings.TrimSpace(n)
+		for i, name := range g.SCNames {
+			if name == n {
+				ret = append(ret, i)
+			}
+		}
+	}
+	return ret
+}
+
+func buildLexRef(g *lexGram) (ref *lexRef, err error) {
+	defer func() {
+		if r := recover(); r != nil {
+			err = fmt.Errorf("panic: %v", r)
+		}
+	}()
+	opts := lex.CharsetOptions{ScanBytes: g.Opts.ScanBytes, Fold: g.Opts.Fold}
+	ref = &lexRef{g: g}
+	var rules []*lex.Rule
+	for i, r := range g.Rules {
+		re, perr := lex.ParseRegexp(r.pat, opts)
+		if perr != nil {
+			return nil, perr
+		}
+		prec := 0
+		if r.prio != "" {
+			prec, _ = strconv.Atoi(r.prio)
+		}
+		prec *= 2
+		if r.attr == "(class)" {
+			prec--
+		}
+		rules = append(rules, &lex.Rule{
+			Pattern:         &lex.Pattern{Name: r.name, RE: re, Text: r.pat, Origin: lexNode{i}},
+			Resolver:        lexNoResolver{},
+			StartConditions: g.scIndexes(r.sc),
+			Precedence:      prec,
+			Action:          i + 2,
+			Origin:          lexNode{i},
+		})
+		ref.names = append(ref.names, r.name)
+		ref.space = append(ref.space, r.attr == "(space)")
+	}
+	ref.t, err = lex.Compile(rules, g.Opts.ScanBytes, true)
+	if err != nil {
+		return nil, err
+	}
+	return ref, nil
+}
+
+type lexNamedTok struct {
+	Name string
+	S, E int
+}
+
+// tokenize returns (token name, start, end) until EOI according to the rules.
+func (ref *lexRef) tokenize(state int, text string, limit int) []lexNamedTok {
+	var ret []lexNamedTok
+	off := 0
+	if !ref.g.Opts.NoBOM && strings.HasPrefix(text, "\xef\xbb\xbf") {
+		off = 3
+	}
+	if state >= len(ref.t.StateMap) {
+		return nil
+	}
+	for len(ret) < limit {
+		size, act := ref.t.Scan(state, text[off:])
+		if act == 0 {
+			if size == 0 {
+				if off >= len(text) {
+					return append(ret, lexNamedTok{"eoi", off, off})
+				}
+				size = 1
+				if !ref.g.Opts.ScanBytes {
+					_, size = utf8.DecodeRuneInString(text[off:])
+				}
+			}
+			ret = append(ret, lexNamedTok{"invalid_token", off, off + size})
+			off += size
+			continue
+		}
+		if !ref.space[act-2] {
+			ret = append(ret, lexNamedTok{ref.names[act-2], off, off + size})
+		}
+		off += size
+	}
+	return ret
 }
